@@ -206,10 +206,15 @@ def streams(ctx):
         out.append(('large:inv%d' % nitems, big))
         out.append(('large:getpeers+inv%d' % nitems, small_frames['getpeers'] + big))
         out.append(('large:inv%d+getpeers' % nitems, big + small_frames['getpeers']))
+    # two multi-read frames back to back: the first one ends INSIDE a full-size read, under every alignment of the
+    # node's 1024-byte reads (large_cuts adds all 1024 alignments for names starting with 'large:align')
+    out.append(('large:align:inv150+inv150', frame(inv_of(150, 5)) + frame(inv_of(150, 6))))
+    out.append(('large:align:inv40+inv60+getpeers+inv40', frame(inv_of(40, 5)) + frame(inv_of(60, 6)) + small_frames['getpeers']
+                + frame(inv_of(40, 7))))
     return out
 
 
-def large_cuts(stream):
+def large_cuts(stream, all_alignments=False):
     """cut set for streams too long for all cuts: whole; the node's own read pattern (1024-byte reads) and 4096 / 65536-byte
     reads; every single cut at a position next to a frame boundary, the 12 bytes after it, a power of two (+-1, also
     counted from the start of each frame body) or the end; and each of those combined with a cut one byte before the end"""
@@ -237,6 +242,9 @@ def large_cuts(stream):
     for a in marks:
         if a < n - 1:
             yield (a, n - 1)
+    if all_alignments:
+        for first in range(1, 1024):
+            yield tuple(range(first, n, 1024))
 
 
 def _worker(arg):
@@ -249,7 +257,8 @@ def _worker(arg):
     n = 0
     outcomes = set()
     for mode in ('receiver', 'peer'):
-        for cuts in (large_cuts(stream) if name.startswith('large:') else all_cuts(len(stream), three and mode == 'receiver')):
+        for cuts in (large_cuts(stream, name.startswith('large:align')) if name.startswith('large:')
+                     else all_cuts(len(stream), three and mode == 'receiver')):
             n += 1
             got, at, exc = run_cut(stream, cuts, mode)
             # the raising read must be the one that delivers the refusal byte
@@ -302,7 +311,7 @@ def run(ctx):
                 "bytewise, every 2-way cut (also with an empty read), every 3-way cut for streams <= %d bytes; through "
                 "MessageReceiver.receive and through ConnectedRemotePeer.handle_receive_data; frames of 5 KB / 71 KB (thorough: "
                 "1.1 MB) alone, first and last in a stream under 1024/4096/65536-byte reads and every single cut next to a frame "
-                "boundary, a power of two or the end" % maxlen3,
+                "boundary, a power of two or the end; two multi-read frames back to back under every alignment of 1024-byte reads" % maxlen3,
     })
 
 
